@@ -36,18 +36,51 @@ type Scenario struct {
 	AllowRace  bool
 	// NoSleep turns the sleep-set reduction off (scenarios whose oracle is an invariant over
 	// intermediate global states rather than end states, local assertions and monitor objects).
-	NoSleep    bool
-	Body       func(c *vsched.Ctx)
+	NoSleep bool
+	Body    func(c *vsched.Ctx)
 	// MinOutcomes is the number of distinct end-state labels the scenario must
 	// produce for the exploration to count as non-vacuous (default 1).
 	MinOutcomes int
 }
 
 var (
-	scenFlag  = flag.String("scen", "", "worker: scenario name")
-	boundsFlag = flag.String("bounds", "0", "worker: deviation bounds to run in order")
-	jobCapFlag = flag.Float64("jobcap", 0, "worker: seconds this job may use (a fair share of the tier's budget)")
+	scenFlag    = flag.String("scen", "", "worker: scenario name")
+	boundsFlag  = flag.String("bounds", "0", "worker: deviation bounds to run in order")
+	jobCapFlag  = flag.Float64("jobcap", 0, "worker: seconds this job may use (a fair share of the tier's budget)")
+	promoteFlag = flag.String("promote", "", "worker: comma-separated locations whose plain accesses are scheduling points")
 )
+
+// RaceViolates says whether a data race (the message starts with vsched.RacePrefix) violates
+// property id. The default is no: a property that does not speak of data races is decided by
+// its oracle on the interleavings of the racing statements, which are explored once the racy
+// location has been promoted to a visible operation.
+var RaceViolates = func(id, msg string) bool { return false }
+
+func promoted() []string {
+	if *promoteFlag == "" {
+		return nil
+	}
+	return strings.Split(*promoteFlag, ",")
+}
+
+// raceLocation extracts the location's name from a data race message ("" if msg is none).
+func raceLocation(msg string) string {
+	if !strings.HasPrefix(msg, vsched.RacePrefix) {
+		return ""
+	}
+	n := msg[len(vsched.RacePrefix):]
+	if i := strings.Index(n, ": "); i >= 0 {
+		n = n[:i]
+	}
+	return strings.TrimSuffix(n, "(atomic access)")
+}
+
+type jobT struct {
+	scen   *Scenario
+	bounds []int
+	shard  int
+	n      int
+}
 
 type job struct {
 	scen  *Scenario
@@ -94,7 +127,7 @@ func deadline() time.Time {
 }
 
 func cfgFor(s *Scenario, bound, shard, n int) vsched.Config {
-	return vsched.Config{Name: s.Name, Bound: bound, Delay: plan(s).Delay, AltCost: plan(s).Wide, Sleep: bound < 0 && !s.NoSleep && os.Getenv("VERIF_SLEEP") != "0", TimersLive: s.TimersLive, AllowPanic: s.AllowPanic, AllowRace: s.AllowRace,
+	return vsched.Config{Name: s.Name, Bound: bound, Delay: plan(s).Delay, AltCost: plan(s).Wide, Sleep: bound < 0 && !s.NoSleep && os.Getenv("VERIF_SLEEP") != "0", TimersLive: s.TimersLive, AllowPanic: s.AllowPanic, AllowRace: s.AllowRace, Promote: promoted(), RaceFatal: func(m string) bool { return RaceViolates(*vcommon.ID, m) },
 		Deadline: deadline(), Shard: shard, NShards: n}
 }
 
@@ -189,12 +222,6 @@ func Collect(all []Scenario) (map[string]any, []vcommon.Violation) {
 		os.Exit(0)
 	}
 	// ---- coordinator: every scenario (and every shard of its last bound) is one process
-	type jobT struct {
-		scen   *Scenario
-		bounds []int
-		shard  int
-		n      int
-	}
 	var jobs []jobT
 	for _, s := range scens {
 		p := plan(s)
@@ -209,6 +236,76 @@ func Collect(all []Scenario) (map[string]any, []vcommon.Violation) {
 			jobs = append(jobs, jobT{s, p.Bounds, 0, 1})
 		}
 	}
+	var reports []scenReport
+	var viols []vcommon.Violation
+	var samples []any
+	allComplete := true
+	var promotedLocs []string
+	var raceNotes []any
+	for round := 0; ; round++ {
+		var newLocs []string
+		reports, viols, samples, allComplete, newLocs, raceNotes = runRound(id, scens, jobs, promotedLocs, raceNotes)
+		if len(newLocs) == 0 || round >= 6 {
+			break
+		}
+		promotedLocs = append(promotedLocs, newLocs...)
+		sort.Strings(promotedLocs)
+		fmt.Printf("NOTE: data race on %s: its plain accesses become scheduling points and the scenarios are explored again\n", strings.Join(newLocs, ", "))
+	}
+	cov := map[string]any{}
+	st, tr, ex, dn := 0, 0, 0, 0
+	for _, r := range reports {
+		st += r.States
+		tr += r.Transitions
+		ex += r.Executions
+		dn += len(r.Outcomes)
+	}
+	cov["states"] = st
+	cov["transitions"] = tr
+	cov["traces_validated_against_impl"] = ex
+	cov["evaluations"] = ex
+	cov["distinct_nontrivial"] = dn
+	cov["rule"] = "every execution is a complete run of the instrumented real code under the controlled scheduler; states = distinct happens-before trace prefixes (state-cache keys); distinct_nontrivial = distinct end-state labels over all scenarios"
+	cov["exhaustive"] = allComplete
+	var vac, rn []any
+	for _, n := range raceNotes {
+		if m, ok := n.(map[string]any); ok && m["vacuity_warning"] != nil {
+			dup := false
+			for _, v := range vac {
+				dup = dup || v == m["vacuity_warning"]
+			}
+			if !dup {
+				vac = append(vac, m["vacuity_warning"])
+			}
+		} else {
+			rn = append(rn, n)
+		}
+	}
+	if len(vac) > 0 {
+		cov["vacuity_warnings"] = vac
+	}
+	if raceNotes = rn; len(raceNotes) > 0 {
+		cov["data_races_promoted"] = raceNotes
+		cov["data_race_note"] = "data races were found on these locations; " + id + " does not speak of data races, so the plain accesses of the locations were made scheduling points (statement granularity) and the scenarios explored again; torn or reordered accesses below statement granularity are not modelled"
+	}
+	cov["scenarios"] = reports
+	if len(samples) == 0 {
+		samples = append(samples, "no sample (violation found before a sample was taken)")
+	}
+	cov["samples"] = samples
+	sort.Slice(reports, func(i, j int) bool { return reports[i].Name < reports[j].Name })
+	for _, r := range reports {
+		fmt.Printf("%-28s threads=%d bound=%-9s execs=%-8d states=%-8d transitions=%-9d end-states=%d complete=%v %.1fs\n",
+			r.Name, r.Threads, r.BoundCompleted, r.Executions, r.States, r.Transitions, len(r.Outcomes), r.Complete, r.WallS)
+	}
+	return cov, viols
+}
+
+// runRound runs every job once (plain accesses of the promoted locations being scheduling
+// points) and merges the results. Data races that do not violate the property by themselves
+// are returned as locations to promote.
+func runRound(id string, scens []*Scenario, jobs []jobT, promote []string, raceNotes []any) (reports []scenReport, viols []vcommon.Violation, samples []any, allComplete bool, newLocs []string, notes []any) {
+	notes = raceNotes
 	// every job gets a fair share of the budget: the pool runs NProc jobs at a time, so with
 	// w waves of jobs each may use 1/w of the time that is left
 	waves := (len(jobs) + vcommon.NProc() - 1) / vcommon.NProc()
@@ -223,13 +320,10 @@ func Collect(all []Scenario) (map[string]any, []vcommon.Violation) {
 		for _, b := range j.bounds {
 			bs = append(bs, fmt.Sprint(b))
 		}
-		args = append(args, []string{"-scen", j.scen.Name, "-bounds", strings.Join(bs, ","), "-shard", fmt.Sprintf("%d/%d", j.shard, j.n), "-jobcap", fmt.Sprintf("%.1f", jobCap)})
+		args = append(args, []string{"-scen", j.scen.Name, "-bounds", strings.Join(bs, ","), "-shard", fmt.Sprintf("%d/%d", j.shard, j.n), "-jobcap", fmt.Sprintf("%.1f", jobCap), "-promote", strings.Join(promote, ",")})
 	}
 	outs := vcommon.RunJobs(args)
-	var reports []scenReport
-	var viols []vcommon.Violation
-	var samples []any
-	allComplete := true
+	allComplete = true
 	for _, s := range scens {
 		p := plan(s)
 		rep := scenReport{Name: s.Name, About: s.About, Outcomes: map[string]int{}, Complete: true}
@@ -278,6 +372,18 @@ func Collect(all []Scenario) (map[string]any, []vcommon.Violation) {
 				complete = complete && r.Complete
 				for _, f := range r.Failures {
 					failed = true
+					if loc := raceLocation(f.Msg); loc != "" && !RaceViolates(id, f.Msg) {
+						// not a violation of this property by itself: explore the racing statements' interleavings
+						known := false
+						for _, l := range newLocs {
+							known = known || l == loc
+						}
+						if !known {
+							newLocs = append(newLocs, loc)
+							notes = append(notes, map[string]any{"scenario": s.Name, "location": loc, "race": firstLine(f.Msg)})
+						}
+						continue
+					}
 					viols = append(viols, vcommon.Violation{
 						Scenario:    s.Name,
 						Fingerprint: s.Name + "|" + firstLine(f.Msg),
@@ -310,36 +416,15 @@ func Collect(all []Scenario) (map[string]any, []vcommon.Violation) {
 			min = 1
 		}
 		if !failed && rep.Complete && len(rep.Outcomes) < min {
-			vcommon.Infra("vacuous exploration: scenario %s produced %d distinct end states, expected at least %d", s.Name, len(rep.Outcomes), min)
+			// fewer distinct end states than this code base is known to produce: the scenario may no
+			// longer make the operations collide. That weakens the evidence, it is not a verdict.
+			w := fmt.Sprintf("scenario %s produced %d distinct end states, at least %d were expected", s.Name, len(rep.Outcomes), min)
+			fmt.Println("WARNING: possibly vacuous exploration: " + w)
+			notes = append(notes, map[string]any{"vacuity_warning": w})
 		}
 		reports = append(reports, rep)
 	}
-	cov := map[string]any{}
-	st, tr, ex, dn := 0, 0, 0, 0
-	for _, r := range reports {
-		st += r.States
-		tr += r.Transitions
-		ex += r.Executions
-		dn += len(r.Outcomes)
-	}
-	cov["states"] = st
-	cov["transitions"] = tr
-	cov["traces_validated_against_impl"] = ex
-	cov["evaluations"] = ex
-	cov["distinct_nontrivial"] = dn
-	cov["rule"] = "every execution is a complete run of the instrumented real code under the controlled scheduler; states = distinct happens-before trace prefixes (state-cache keys); distinct_nontrivial = distinct end-state labels over all scenarios"
-	cov["exhaustive"] = allComplete
-	cov["scenarios"] = reports
-	if len(samples) == 0 {
-		samples = append(samples, "no sample (violation found before a sample was taken)")
-	}
-	cov["samples"] = samples
-	sort.Slice(reports, func(i, j int) bool { return reports[i].Name < reports[j].Name })
-	for _, r := range reports {
-		fmt.Printf("%-28s threads=%d bound=%-9s execs=%-8d states=%-8d transitions=%-9d end-states=%d complete=%v %.1fs\n",
-			r.Name, r.Threads, r.BoundCompleted, r.Executions, r.States, r.Transitions, len(r.Outcomes), r.Complete, r.WallS)
-	}
-	return cov, viols
+	return
 }
 
 func firstLine(s string) string {
